@@ -203,4 +203,56 @@ theorem C28_unlocked_sends_on_closed :
 example : (run true (Sys.init 1 [[.record 0, .record 0], [.stop 0]]) [0, 0, 0, 0, 0, 1, 1, 1, 0, 0]).hs.map
     (fun x => (x.sendsOnClosed, x.closes, x.cleaned)) = [(0, 1, true)] := by decide
 
+/-- The regenerated shapes of `RPCClient.Close` and `deregisterAll`: one `shutdownLock` section containing the test
+of `shutdown`, its assignment and the only `close(shutdownCh)`; the dispatch table is replaced by a fresh map under
+`dispatchLock`. -/
+theorem C28_close_shape :
+    SerfModel.Gen.RpcClient.close.good = true ∧ SerfModel.Gen.RpcClient.deregisterAll.good = true := by decide
+
+theorem closeRun_atomic_inv (sched : List Nat) : ∀ s : CS, s.closes = (if s.shutdown then 1 else 0) →
+    (closeRun true s sched).closes = (if (closeRun true s sched).shutdown then 1 else 0) := by
+  induction sched with
+  | nil => intro s h; exact h
+  | cons t rest ih =>
+    intro s h
+    have : closeRun true s (t :: rest) = closeRun true (closeStep true s t) rest := rfl
+    rw [this]
+    apply ih
+    unfold closeStep
+    by_cases hs : s.shutdown
+    · simp [hs] at h ⊢; exact h
+    · simp [hs] at h ⊢; omega
+
+/-- **Any number of concurrent `Close` calls close `shutdownCh` at most once** (and exactly once as soon as one of
+them ran), for every schedule — under the extracted shape. -/
+theorem C28_close_once (sched : List Nat) :
+    (closeRun SerfModel.Gen.RpcClient.close.good {} sched).closes ≤ 1 ∧
+    (sched ≠ [] → (closeRun SerfModel.Gen.RpcClient.close.good {} sched).closes = 1) := by
+  rw [C28_close_shape.1]
+  have h := closeRun_atomic_inv sched {} rfl
+  constructor
+  · rw [h]; split <;> omega
+  · intro hne
+    cases sched with
+    | nil => exact absurd rfl hne
+    | cons t rest =>
+      have h1 : closeRun true {} (t :: rest) = closeRun true (closeStep true {} t) rest := rfl
+      have h2 : closeStep true {} t = { shutdown := true, closes := 1 } := by simp [closeStep]
+      have h3 := closeRun_atomic_inv rest { shutdown := true, closes := 1 } rfl
+      -- the flag never goes back to false
+      have mono : ∀ (l : List Nat) (s : CS), s.shutdown = true → (closeRun true s l).shutdown = true := by
+        intro l
+        induction l with
+        | nil => intro s hs; exact hs
+        | cons a l ih =>
+          intro s hs
+          have : closeRun true s (a :: l) = closeRun true (closeStep true s a) l := rfl
+          rw [this]; apply ih; simp [closeStep, hs]
+      rw [h1, h2, h3, mono rest _ rfl]; rfl
+
+/-- Regression witness: when the test and the update are not one critical section (check under a read lock, act
+later), two racing `Close` calls both close the channel — a process panic. -/
+theorem C28_split_close_closes_twice :
+    (closeRun false { pending := [false, false] } [0, 1, 0, 1]).closes = 2 := by decide
+
 end SerfProofs.C28
